@@ -114,6 +114,8 @@ type vend struct {
 	// closeIn: closing this end also ends its own Recv (like a socket); otherwise Recv keeps
 	// waiting for the peer (like channel.Direct)
 	closeIn bool
+	scratch []byte // frame under construction (see Send)
+	midSend func(b []byte)
 }
 
 // validRecord: one complete JSON-RPC message: an object, or a non-empty array of objects.
@@ -158,15 +160,27 @@ func (e *vend) Send(b []byte) error {
 	if err := validRecord(b); err != nil {
 		e.st.problem("record passed to Send is not one complete JSON-RPC message (%v): %.200q", err, b)
 	}
+	// like the header framings, assemble the frame in a scratch buffer owned by the channel: the
+	// contract allows it because Send calls are serialised by the caller. An unserialised second
+	// Send then overwrites what the first is about to transmit.
+	e.st.mu.Lock()
+	e.scratch = append(e.scratch[:0], b...)
+	e.st.mu.Unlock()
 	// give other runnable goroutines a chance to expose an unserialised Send / Close
 	runtime.Gosched()
 	runtime.Gosched()
+	if e.midSend != nil {
+		e.midSend(b) // a scheduling point inside the transport write (see srvRun.sendPark)
+	}
 	if e.st.sendErr != nil {
 		if err := e.st.sendErr(n); err != nil {
 			return err
 		}
 	}
-	return e.out.put(append([]byte(nil), b...))
+	e.st.mu.Lock()
+	frame := append([]byte(nil), e.scratch...)
+	e.st.mu.Unlock()
+	return e.out.put(frame)
 }
 
 func (e *vend) Recv() ([]byte, error) {
